@@ -3,3 +3,5 @@ import ZeepModel.Lex.Base64
 import ZeepModel.Cache
 import ZeepModel.Url
 import ZeepModel.Loader
+import ZeepModel.Xml
+import ZeepModel.Soap.Reply
